@@ -389,6 +389,26 @@ let handle (line : string) : string =
            go (k - 1) s'
          end in
        go k rs
+   | "SD2" ->     (* two streams decoded side by side on one thread: each is what it is alone *)
+       let ds = get_dict (next t) in
+       let one () =
+         let k = next_int t in
+         let rs = parse_rscript t in
+         let total = List.length (all_bytes rs) in
+         Buffer.add_string b "SD";
+         let rec go k s =
+           if k > 0 then begin
+             let (r, s') = codec_decode (nat_of_int !lim) (dict_fn ds) s in
+             (match r with
+              | DOk m -> Buffer.add_string b " [OK "; pr_msg b m
+              | DEof -> Buffer.add_string b " [EOF"
+              | DErr -> Buffer.add_string b " [ERR"
+              | DPanic -> Buffer.add_string b " [PANIC");
+             Buffer.add_string b (Printf.sprintf " @%d]" (total - List.length (all_bytes s')));
+             go (k - 1) s'
+           end in
+         go k rs in
+       one (); Buffer.add_string b " || "; one ()
    | "SE" ->
        let ds = get_dict (next t) in
        let (start, ops) = parse_history t in
